@@ -22,7 +22,7 @@ func ruleEXPREQUAL(c *Ctx) {
 	}
 	kinds := map[string][]string{ // kind -> components that must be compared
 		"Reference": {"Symbol", "len(Args)", "Args[0]", "Args[1]"},
-		"Optional": {"Sub[0]"}, "LookaheadNot": {"Sub[0]"},
+		"Optional":  {"Sub[0]"}, "LookaheadNot": {"Sub[0]"},
 		"Choice": {"len(Sub)", "Sub[0]", "Sub[1]"}, "Sequence": {"len(Sub)", "Sub[0]", "Sub[1]"}, "Lookahead": {"len(Sub)", "Sub[0]", "Sub[1]"},
 		"List":   {"len(Sub)", "Sub[0]", "Sub[1]", "ListFlags"},
 		"Assign": {"Name", "Sub[0]"}, "Append": {"Name", "Sub[0]"},
